@@ -7,6 +7,8 @@ ASSUMPTIONS = [
     'flows are configured in flow2class and their classes in the weight / vtick table; weights, vticks, rate > 0; sizes are positive integers; an `out` is attached',
     'in 30% of the cases the packets carry a creation time (`Packet.time`) earlier than their arrival at the scheduler (ages 0 - 64 transmission times, as behind a wire); the model and the oracles order equal stamps by the arrival instant at the scheduler',
     'theorems are over exact rationals; the replay compares IEEE doubles bit for bit (stamps, vtime, last_time, aux_vc, vc, clock)',
+    'family `longbusy` (about 4% of the cases): one busy period of few, very large packets in which WFQ\'s virtual time passes 1e6 and more, with a light class that is idle '
+    'while its finish stamp is ahead of V and returns before V has caught up; replayed through the model like every other case (magnitudes up to 1e8 s / 1e11 bytes)',
     'WFQ accumulates weight_sum in the iteration order of a Python set; the model adds in ascending class order. The workloads use integer or dyadic weights '
     '(every partial sum exact, so the order cannot matter) and arbitrary floats only with at most two classes (a + b = b + a); '
     'with three or more non-dyadic weights the last bit of vtime could depend on the hash-table order, which is outside the model',
@@ -80,9 +82,9 @@ def fairness_oracle(c, run):
 def oracle(c, run):
     fails = []
     exp, f1 = expected_stamps(c, run)
-    fails += f1
     f2, ties, full = order_oracle(run, exp)
-    fails += f2
+    fails += f2         # a packet transmitted ahead of one with a smaller stamp: the consequence first, then the stamps themselves
+    fails += f1
     f3, pairs = fairness_oracle(c, run)
     fails += f3
     if run.raised:
@@ -140,7 +142,7 @@ def run(ctx, prop='C14', n_quick=3000, n_thorough=50000):
             samples.append({'config': {k: v for k, v in c.items() if k != 'sources'}, 'sources': c['sources'], 'actions': r.acts[:40]})
     cov = {'evaluations': len(cases), 'distinct_nontrivial': nontriv,
            'rule': 'seeded WFQ / VirtualClock configurations (weight / vtick tables, identity and many-to-one class maps) x arrival workloads '
-                   '(random, static backlog, deliberately equal stamps, idle periods, arrivals at transmission ends and at the very end of a busy period, unconfigured flow); '
+                   '(random, static backlog, deliberately equal stamps, idle periods, arrivals at transmission ends and at the very end of a busy period, unconfigured flow, one very long busy period with V beyond 1e6); '
                    'non-trivial = distinct case with a service decision taken among packets of at least two flows, or among equal stamps',
            'samples': samples, 'traces_validated_against_impl': len(cases) - len(dis), 'action_lines_replayed': lines,
            'operation_histogram': dict(sorted(hist.items()))}
